@@ -63,6 +63,10 @@ def main():
                 for k in range(6000):
                     keep[-1].send(k)
         out.append({"scenario": sc, "pid": pid})
+        if topo == "via":
+            # the forwarding worker is a worker of this initiator as well
+            mpid = group[f"m{i}"].remote_exec("import os\nchannel.send(os.getpid())").receive(30)
+            out.append({"scenario": dict(sc, topo="via-forwarder", execmodel="thread"), "pid": mpid})
     time.sleep(0.3)  # let the bodies get going
     print(json.dumps({"me": os.getpid(), "workers": out, "all": sorted(p for p in _desc(os.getpid()))}), flush=True)
     how = job["death"]
